@@ -535,6 +535,8 @@ impl<'a, 'b> G<'a, 'b> {
                 let t = self.c.choose(&[
                     "NS.C", "NS.a.B", "o.Comp", "this.C", "this.a.b", "NS.KeepAlive", "NS.Fragment",
                     "NS.el", "o.model", "NS.a.myEl", "NS.k-1", "o.x-y.C", "NS.a.b-c-",
+                    // hyphenated object: no identifier can be built (diagnostic expected)
+                    "a-b.c",
                 ]);
                 if t.starts_with("this") {
                     self.f.unusual("this-member-tag");
